@@ -15,10 +15,39 @@ from simkit import aead_spy, seams
 from simkit.core import Chooser, Ctx, result_of
 from simkit.loop import SimDeadlock, SimLoop
 
+# ---- enumerated short histories (all of depth <= 3 in the quick tier, depth 4 in the thorough tier) ----------------
+IP_ALPHA = ["req", "bigreq", "replay", "future", "corrupt", "cancel", "timeout"]
+BLE_ALPHA = ["get", "put", "disconnect", "cancel_get", "replay_fragment", "corrupt_fragment"]
+COAP_ALPHA = ["ok", "lost", "reply_lost", "notfound", "replay", "corrupt", "neterr", "cancel", "cancel_early", "future"]
+
+
+def _words(alpha, depth):
+    import itertools
+
+    return [w for d in range(1, depth + 1) for w in itertools.product(alpha, repeat=d)]
+
+
+def _build_enum():
+    out = []
+    for mode, alpha in (("coap", COAP_ALPHA), ("ble", BLE_ALPHA), ("ip", IP_ALPHA)):
+        out += [(mode, w) for w in _words(alpha, 3)]
+    n3 = len(out)
+    import itertools
+
+    for mode, alpha in (("coap", COAP_ALPHA), ("ble", BLE_ALPHA), ("ip", IP_ALPHA)):
+        out += [(mode, w) for w in itertools.product(alpha, repeat=4)]
+    return out, n3
+
+
+ENUM, N_DEPTH3 = _build_enum()
+
 PROP = "C06"
 LEVEL = "exploration"
 RULE = (
-    "seeded histories per transport. ip: the C08 workload (concurrent callers, delays around the 30 s timer, stalls, truncation, cancellations, "
+    "first, every history of depth <= 3 (quick) / <= 4 (thorough) over the per-transport alphabets ip {request, request longer than one frame, replay of an "
+    "earlier genuine frame, frame under a future counter, corrupted frame, cancelled request, 30 s time-out}, ble {get, put, disconnect, cancelled get, replayed "
+    "fragment, corrupted fragment}, coap {ok, request lost, reply lost, 4.04, replayed reply, corrupted reply, network error, cancel after/before arrival, reply "
+    "under a future counter} is executed once with fixed parameters (run index < " + str(N_DEPTH3) + " resp. " + str(len(ENUM)) + "); then seeded histories per transport. ip: the C08 workload (concurrent callers, delays around the 30 s timer, stalls, truncation, cancellations, "
     "peer FIN/RST) plus injected replays of earlier genuine encrypted frames and frames sealed under a future counter, on the real IpPairing "
     "over simulated TCP. ble: real BlePairing over the simulated bleak backend - reads/writes of seeded sizes, link drops at seeded GATT "
     "operations, failing operations, caller cancellations, reconnects with and without session resume, accessory-side replay of an earlier "
@@ -32,10 +61,59 @@ REAL = ["aiohomekit.controller.ip.connection.SecureHomeKitProtocol + full IP sta
 STUB = ["TCP / bleak backend / aiocoap message layer (simulated)", "accessories (reference peers)", "AEAD class names rebound to recording proxies (harness side)"]
 ASSUMPTIONS = ["label nonces of the pairing exchanges (PV-Msg02 ...) are single-use per derived key and only checked for reuse",
                "CoAP: aiocoap's own deduplication is a stub; replays are injected at the payload level, which is where the library's counter logic decides"]
-TIERS = {"quick": {"runs": 7000, "wall": 55}, "thorough": {"runs": 400000, "wall": 1500}}
+TIERS = {"quick": {"runs": 8000, "wall": 70}, "thorough": {"runs": 400000, "wall": 1500}}
+
+
+
+
+def enum_plan(mode: str, word) -> dict:
+    if mode == "coap":
+        ops = []
+        for a in word:
+            if a in ("cancel", "cancel_early"):
+                ops.append({"op": "cancel_get", "fault": None, "which": 0, "pos": 7, "bit": 1, "n": 1, "cancel_after": 0.006 if a == "cancel" else 0.001})
+            else:
+                ops.append({"op": "get", "fault": None if a == "ok" else a, "which": 2, "pos": 7, "bit": 1, "n": 1, "cancel_after": 0.0})
+        return {"mode": "coap", "ops": ops, "events": 1, "lat": 0.01, "enumerated": list(word)}
+    if mode == "ble":
+        ops = [{"op": "get", "n": 1, "vlen": 10, "cancel_after": 0.0}] + [{"op": a, "n": 2, "vlen": 150, "cancel_after": 0.011} for a in word]
+        return {"mode": "ble", "ops": ops, "mtu": 100, "drop_at": None, "fail_p": 0, "enumerated": list(word)}
+    ops = [{"op": "get", "ids": [[1, 10]], "t": 0.5}]
+    t = 1.5
+    k = 0
+    for a in word:
+        k += 1
+        ids = [[1, 10 + (k % 3)]]
+        if a == "req":
+            ops.append({"op": "get", "ids": ids, "t": t})
+        elif a == "bigreq":
+            ops.append({"op": "get", "ids": [[1, 2000 + 10 * k + j] for j in range(300)] + ids, "t": t})
+        elif a == "replay":
+            ops.append({"op": "replay_frame", "which": 0, "k": 1, "t": t})
+        elif a == "future":
+            ops.append({"op": "future_frame", "which": 0, "k": 1, "t": t})
+        elif a == "corrupt":
+            ops.append({"op": "corrupt", "where": "ct", "frame": 0, "pos": 5, "bit": 1, "t": t})
+            ops.append({"op": "get", "ids": ids, "t": round(t + 0.001, 3)})
+        elif a == "cancel":
+            ops.append({"op": "get", "ids": ids, "t": t, "cancel_after": 0.002})
+        elif a == "timeout":
+            ops.append({"op": "stall", "on": True, "t": t})
+            ops.append({"op": "get", "ids": ids, "t": round(t + 0.001, 3)})
+            ops.append({"op": "stall", "on": False, "t": round(t + 31.0, 3)})
+            t += 32.0
+        t = round(t + 1.5, 3)
+    profile = {"hosts": [["10.0.0.1", "genuine"]], "lat": [0.002, 0.002], "seg": "whole", "frame": "max"}
+    return {"mode": "ip", "profile": profile, "ops": ops, "listeners": {"L0": {}}, "heal_at": t + 35.0, "end_at": t + 60.0, "heal_probe": 1, "allow_other_exceptions": True,
+            "enumerated": list(word)}
 
 
 def gen_plan(seed: int, tier: str) -> dict:
+    from simkit.harness import SEED_STRIDE
+
+    idx = seed % SEED_STRIDE
+    if idx < (N_DEPTH3 if tier == "quick" else len(ENUM)):
+        return enum_plan(*ENUM[idx])
     r = random.Random(seed)
     mode = r.choice(["ip"] * 5 + ["ble"] * 3 + ["coap"] * 3)
     if mode == "ip":
